@@ -27,15 +27,21 @@ pub fn digest(text: &str) -> (String, String) {
         Ok(t) => (Ty::from_real(t).text(), t.to_string()),
         Err(_) => ("<type unavailable>".into(), String::new()),
     };
-    let out = match real::exec_code(&code, 6_000) {
-        Outcome::Value(v) => format!("value={}", canon(&v)),
-        Outcome::ExecErr(Some(k), _) => format!("error={}", k.name()),
-        Outcome::ExecErr(None, n) => format!("error={n}"),
-        Outcome::Panic(p) if p.kind == PanicKind::Panic => format!("panic={}", p.site()),
-        Outcome::Panic(_) => return ("inconclusive".into(), String::new()),
-        Outcome::Rejected(..) => unreachable!(),
+    // run unscoped in a fresh interpreter so that the effect log (if the program has one) is part of the outcome
+    let mut run_interp = Interpreter::with_stdlib();
+    let r = real::guarded(|| {
+        real::arm(6_000, real::DEFAULT_DEPTH);
+        code.exec_unscoped(&mut run_interp)
+    });
+    simplesl::verif::set_fuel(u64::MAX);
+    let out = match r {
+        Ok(Ok(v)) => format!("value={}", canon(&v)),
+        Ok(Err(e)) => format!("error={}", real::exec_err_kind(&e).map_or(format!("{e:?}"), |k| k.name().to_string())),
+        Err(p) if p.kind == PanicKind::Panic => format!("panic={}", p.site()),
+        Err(_) => return ("inconclusive".into(), String::new()),
     };
-    (format!("type={ty};{out}"), printed)
+    let log = prog::read_log(&run_interp).map_or(String::new(), |l| format!(";log={l:?}"));
+    (format!("type={ty};{out}{log}"), printed)
 }
 
 pub const TEMPLATES: &[&str] = &[
@@ -59,6 +65,14 @@ pub const TEMPLATES: &[&str] = &[
     "z := struct{a := [1, \"x\"], b := (1, 2.5), c := mut int|string 3}; (z.a, z.b)",
     "f := () -> (int, string)|(float, string) { return (1, \"a\") }; (f().0, f().1)",
     "x := [1, \"a\"][0]; y := [2.5, true][1]; [x, y]",
+    // literals whose element initialisers interact: evaluation order must not depend on a hash order
+    "c := mut 0; s := struct{a := c += 1, b := c *= 2, cc := c += 5, d := c *= 3, e := c -= 4}; (s.a, s.b, s.cc, s.d, s.e, *c)",
+    "it := [1, 2, 3, 4, 5]~; s := struct{a := it().1, b := it().1, c := it().1, d := it().1}; (s.a, s.b, s.c, s.d)",
+    "z := mut 0; s := struct{a := 1 / *z, b := [1][5], c := 1 << 64, d := [0; -1]}; s.a",
+    "c := mut 1; m := mod { a := c += 1; b := c *= 5; d := c -= 3; e := c *= 7 }; (m.a, m.b, m.d, m.e, *c)",
+    "c := mut 0; t := (c += 1, c *= 2, c += 5, c *= 3); a := [c += 1, c *= 2, c += 5]; (t, a)",
+    "c := mut 0; f := (a: int, b: int, d: int) -> [int] { return [a, b, d] }; f(c += 1, c *= 2, c += 5)",
+    "c := mut 0; s := struct{a := ti(1, c += 1), b := ti(2, c *= 2), d := ti(3, c += 5)}; (s.a, s.b, s.d)",
 ];
 
 fn profiles() -> Vec<Profile> {
